@@ -65,5 +65,11 @@ TEXTS = {
         level_text="Generated-history search with ownership invariants checked after every batch and every master-side call attributed against the ownership at the start of the batch; ~100 histories quick, ~2300 thorough, with task reuse on and off. Exploration level: interleavings are induced by delays and concurrent callers, not enumerated.",
         level_note="Ownership snapshots are read through the public API at quiescence; the seeded change in KillTasks (stale kill list) is not reachable through the API because CreateEnvironment kills every unlocked task before deploying (see DESIGN.md).",
     ),
+    "C06": dict(
+        engine="simworld",
+        technique="property-based fault enumeration (rapid): generated teardown and failing-creation scenarios (state, flags, DESTROY hook sets, pending calls, pre-destroy task/executor faults, refused kills, failure stage) against the whole real core; oracle = residue invariants read through the API, the simulated master's call log, a probe that inspects ownership at the very moment a DESTROY hook runs, and the core's own goroutine dump",
+        level_text="Fault enumeration over every destroy source state x flag combination and every creation failure stage as fixed cases on each run, plus generated combinations (~100 quick, ~3000 thorough). Checks the real TeardownEnvironment / DestroyEnvironment / CreateEnvironment cleanup paths end to end.",
+        level_note="Whether kept tasks are killed on the server's forced paths and whether every DESTROY hook runs are deliberately not claimed (not in the statement); goroutine leaks are read from net/http/pprof served by simcore.",
+    ),
 }
 NA_REASONS = {}
